@@ -37,7 +37,10 @@ made in `/repo`, and changes in helpers shared by several endpoints); M/N
 interfaces, non-default Config getters - and the interaction of two features);
 R/S (code many endpoints share - helpers of the root package, the shipped
 session types, the response writers, token/jwt, token/hmac, the reference store
-- and what is written to the wire after the library took the right decision).
+- and what is written to the wire after the library took the right decision);
+T (a last round against the frozen harness, one change per property for eight
+properties, the agents asked for a less-travelled path, option, claim, boundary
+value, handler variant or store method; no check was altered for it).
 Letters K/L and P/Q are the benign rounds (section 9.1). Seeded changes that a
 later `fix:` commit collided with were re-cut against HEAD (meta `ported`);
 those that a later repair neutralised (the demonstration no longer fails) are
